@@ -4,7 +4,10 @@ import contracts.context as CX
 import contracts.standins_context as B
 import contracts.storage as ST
 
-PROVED = [CX.target_should_be_saved, CX.check_cache, CX.find_options, ST.we_take, ST.support_superruns, ST.frontend_find]
+from pyvc.contract import REG
+PROVED = [CX.target_should_be_saved, CX.check_cache, CX.find_options, ST.we_take, ST.support_superruns, ST.frontend_find,
+          CX.add_saver, CX.is_stored_single, REG.contracts["strax/context.py:Context.is_stored[2 data types]"],
+          REG.contracts["strax/context.py:Context.is_stored[3 data types]"]]
 
 PROPERTY = Property(
     "C11", "proof",
@@ -23,5 +26,6 @@ PROPERTY = Property(
                 "computation; the function's own DataNotAvailable is raised exactly in the forbidden cases; 'fuzzy' means a non-empty "
                 "fuzzy_for / fuzzy_for_options find option (contract of _find_options); a storage frontend's find() returns only data "
                 "types it takes (not excluded, named by a non-empty take_only), superruns only if it provides them, and never a "
-                "write location when readonly",
+                "write location when readonly; _add_saver asks every writable frontend in storage order and a refusing one does not stop the "
+                "others; is_stored of several data types is the conjunction, of one data type the disjunction over the frontends",
 )
